@@ -186,6 +186,10 @@ class FreshRandom(RandomSource):
 
     def randint(self, min, max):
         self.n_int += 1
+        if getattr(self, "fixed", False):  # a fixed deterministic stream (the draws are not the subject)
+            v = min + (self.n_int * 7) % (max - min + 1)
+            self.log.append((min, max, v))
+            return v
         if self.coarse and not hasattr(min, "var") and not hasattr(max, "var") and max - min > 64:
             v = min + 1 if getattr(self, "coarse_single", False) else self.ctx.pick([min, min + 1, max], self.name + ".randint(coarse)")
             self.log.append((min, max, v))
